@@ -88,7 +88,7 @@ const c14Marker = "⟨M⟩"
 func c14(r *mon.Run) {
 	r.Rule = "round-trip identities over strings: every string of length <= 2 over a 48-symbol trouble alphabet (backslash, the three delimiters, u n 0, whitespace, NUL and controls, DEL, U+0080, U+2028, U+FFFD, U+FFFF, astral and plane-boundary code points, structural characters), every length-3 string over the 12 most dangerous, seeded random strings of length <= 40 over all planes: " +
 		"(a) the quoted identifier spelled by three independent JSON string encoders (minimal / all-\\uXXXX with surrogate pairs / random mix incl. \\/ \\b \\f) must select exactly key s among decoy keys; (b) the raw string (with ' as \\') must denote s; (c) literals: JSON values built from those strings as keys and leaves, in compact / spaced / escaped text with ` as \\`, must denote v; " +
-		"(d) every ASCII string of length <= 2 and every length-3 string over [A-Za-z0-9_] plus 12 other bytes parses as the field of that name iff it matches [A-Za-z_][A-Za-z0-9_]*; (e) whitespace around tokens. Non-trivial = distinct (layer, string) with a backslash, delimiter, control or non-ASCII code point."
+		"(d) every ASCII string of length <= 2 and every length-3 string over [A-Za-z0-9_] plus 12 other bytes parses as the field of that name iff it matches [A-Za-z_][A-Za-z0-9_]*; (e) whitespace around tokens; (f) two or three names/constants in one expression (lists, hashes, pipes, comparisons): every lexeme must still denote its own value. Non-trivial = distinct (layer, string) with a backslash, delimiter, control or non-ASCII code point."
 	r.Floor = 2000
 	r.Exhaustive = true
 	r.Assumptions = []string{"the three JSON string encoders in gen/encode.go follow RFC 8259 (they share no code with encoding/json)", "raw strings are restricted as C14 says: no backslash directly before a quote or at the end"}
@@ -321,6 +321,53 @@ func c14(r *mon.Run) {
 			}
 			t.Nontrivial("ws:" + expr)
 		}}
+	// several lexemes in ONE expression: state kept by the lexer between lexemes (scratch buffers,
+	// positions) must not leak from one name/constant into the next
+	pairs := mon.Workload{Name: "lexeme-pairs", N: ns,
+		Do: func(i int, t *mon.Tally) {
+			s1, s2 := strAt(i), strAt((i*7919+13)%ns)
+			type cs struct {
+				expr string
+				doc  interface{}
+				want interface{}
+			}
+			var cases []cs
+			q1, q2 := gen.EncodeString(s1, gen.EncMinimal, nil), gen.EncodeString(s2, gen.EncMinimal, nil)
+			l1, l2 := gen.LiteralLexeme(q1), gen.LiteralLexeme(q2)
+			cases = append(cases,
+				cs{"[" + l1 + ", " + l2 + ", " + l1 + "]", map[string]interface{}{}, []interface{}{s1, s2, s1}},
+				cs{"{" + q1 + ": " + l2 + "}", map[string]interface{}{}, map[string]interface{}{s1: s2}})
+			if s1 != s2 {
+				d := map[string]interface{}{s1: nil, s2: c14Marker}
+				if dk := s1 + s2; dk != s1 && dk != s2 {
+					d[dk] = "decoy"
+				}
+				cases = append(cases, cs{q1 + " || " + q2, d, c14Marker})
+			}
+			if gen.RawSpellable(s1) && gen.RawSpellable(s2) {
+				r1, r2 := gen.RawLexeme(s1), gen.RawLexeme(s2)
+				cases = append(cases,
+					cs{"[" + r1 + ", " + r2 + ", " + r1 + "]", map[string]interface{}{}, []interface{}{s1, s2, s1}},
+					cs{r1 + " | [@, " + r2 + "]", nil, []interface{}{s1, s2}},
+					cs{"{" + q2 + ": " + r1 + ", k: " + r2 + "}", map[string]interface{}{}, func() interface{} {
+						m := map[string]interface{}{s2: s1}
+						m["k"] = s2 // a key s2 == "k" is overwritten by the later member, as in the expression
+						return m
+					}()},
+					cs{r1 + " == " + l1 + " && " + r2 + " == " + l2, nil, true})
+			}
+			for _, c := range cases {
+				t.Eval()
+				o := apiSearch(c.expr, c.doc)
+				if o.Panicked || o.Err != nil || !ref.Match(c.want, o.V) {
+					r.Violate(&mon.Violation{Workload: "lexeme-pairs", Index: i, API: "Search", Expr: c.expr, Doc: c.doc, Expected: ref.Canon(c.want), Observed: o.String(), Class: "several lexemes in one expression"})
+					return
+				}
+			}
+			if interesting(s1) && interesting(s2) {
+				t.Nontrivial("pair:" + s1 + "\x00" + s2)
+			}
+		}}
 	_ = jmespath.Search
-	r.Exec(quoted, raw, lit, ident, wsw)
+	r.Exec(quoted, raw, lit, ident, wsw, pairs)
 }
